@@ -226,75 +226,187 @@ def massaction(k, x):
     return k * x
 
 
-def chain_model(k1, k2, k3):
-    """-> x -> y -> ; steady state x = k1/k2, y = k1/k3: all three parameters identifiable from (x, y, v1)"""
+def constant_rate(k):
+    return k
+
+
+def proportional(k, s):
+    return k * s
+
+
+MODELS = {
+    # -> x -> y -> : steady state x = k1/k2, y = k1/k3; every parameter identifiable from (x, y, v1)
+    "chain": {"pars": ["k1", "k2", "k3"], "vars": {"x": 1.0, "y": 0.5}, "varying": ["x", "y", "v2", "v3"]},
+    # x' = k_in + a x with a NEGATIVE coefficient a (a parameter need not be positive)
+    "lin": {"pars": ["k_in", "a"], "vars": {"x": 0.2}, "varying": ["x", "v_lin"]},
+}
+
+
+def build(mname, values):
+    """model `mname` with parameter values and (for names that are variables) initial values from `values`"""
     from mxlpy import Model
-    return (Model().add_variables({"x": 1.0, "y": 0.5}).add_parameters({"k1": k1, "k2": k2, "k3": k3})
-            .add_reaction("v1", influx, args=["k1"], stoichiometry={"x": 1})
-            .add_reaction("v2", massaction, args=["k2", "x"], stoichiometry={"x": -1, "y": 1})
-            .add_reaction("v3", massaction, args=["k3", "y"], stoichiometry={"y": -1}))
+    spec = MODELS[mname]
+    init = {k: float(values.get(k, v)) for k, v in spec["vars"].items()}
+    pars = {k: float(values[k]) for k in spec["pars"]}
+    m = Model().add_variables(init).add_parameters(pars)
+    if mname == "chain":
+        return (m.add_reaction("v1", influx, args=["k1"], stoichiometry={"x": 1})
+                .add_reaction("v2", massaction, args=["k2", "x"], stoichiometry={"x": -1, "y": 1})
+                .add_reaction("v3", massaction, args=["k3", "y"], stoichiometry={"y": -1}))
+    return (m.add_reaction("v_in", constant_rate, args=["k_in"], stoichiometry={"x": 1})
+            .add_reaction("v_lin", proportional, args=["a", "x"], stoichiometry={"x": 1}))
+
+
+def chain_model(k1, k2, k3):
+    return build("chain", {"k1": k1, "k2": k2, "k3": k3})
 
 
 def fingerprint(model):
-    """what a caller can see of a model: parameters, initial conditions, names, and the rhs at a fixed state"""
+    """everything a caller can see of a model: values through the cache AND the raw containers behind it, and what a
+    fresh copy computes once its cache is rebuilt (a write into a shared container shows up at the latest there)"""
+    import copy
+    twin = copy.deepcopy(model)
+    pname = next(iter(twin.get_parameter_names()))
+    twin.update_parameter(pname, twin.get_parameter_values()[pname])  # same value: only drops the cache
+    state = {k: 2.0 + i for i, k in enumerate(model.get_variable_names())}
     return {"pars": {k: repr(v) for k, v in model.get_parameter_values().items()},
             "init": {k: repr(v) for k, v in model.get_initial_conditions().items()},
+            "raw_vars": {k: repr(v.initial_value) for k, v in model.get_raw_variables().items()},
+            "raw_pars": {k: repr(v.value) for k, v in model.get_raw_parameters().items()},
+            "init_after_cache_rebuild": {k: repr(v) for k, v in twin.get_initial_conditions().items()},
             "rxn": list(model.get_reaction_names()),
-            "rhs": [repr(float(x)) for x in model.get_right_hand_side({"x": 2.0, "y": 3.0}, time=0.0)]}
+            "rhs": [repr(float(x)) for x in model.get_right_hand_side(state, time=0.0)]}
 
 
-def make_data(kind, true):
+TIME = {"chain": (4.0, 9), "lin": (2.0, 11)}
+
+
+def simulate_kind(kind, model, mname, true, index=None):
+    """(combined frame / series, protocol) of `model` for the data shape `kind`"""
     import numpy as np
-    import pandas as pd
     from mxlpy import Simulator, make_protocol
-    m = chain_model(**true)
     if kind == "steady_state":
-        res = Simulator(m).simulate_to_steady_state().get_result().unwrap_or_err()
+        res = Simulator(model).simulate_to_steady_state().get_result().unwrap_or_err()
         return res.get_combined().iloc[-1], None
+    t_end, n = TIME[mname]
     if kind == "time_course":
-        res = Simulator(m).simulate_time_course(np.linspace(0, 4, 9)).get_result().unwrap_or_err()
+        tp = np.linspace(0, t_end, n) if index is None else np.array(index, dtype=float)
+        res = Simulator(model).simulate_time_course(tp).get_result().unwrap_or_err()
         return res.get_combined(), None
-    proto = make_protocol([(2, {"k1": true["k1"]}), (2, {"k1": 2 * true["k1"]})])
-    tp = pd.Index(np.linspace(0.5, 4, 8))
-    res = Simulator(m).simulate_protocol_time_course(protocol=proto, time_points=np.array(tp)).get_result().unwrap_or_err()
+    first = MODELS[mname]["pars"][0]
+    proto = make_protocol([(t_end / 2, {first: true[first]}), (t_end / 2, {first: 2 * true[first]})])
+    tp = np.linspace(t_end / 8, t_end, 8) if index is None else np.array(index, dtype=float)
+    res = Simulator(model).simulate_protocol_time_course(protocol=proto, time_points=tp).get_result().unwrap_or_err()
     comb = res.get_combined()
     return comb.loc[[t for t in comb.index if any(abs(t - u) < 1e-12 for u in tp)]], proto
 
 
-def settings_for(kind, model, data, proto, loss, scaled, p0):
+def make_data(kind, true, mname="chain"):
+    return simulate_kind(kind, build(mname, true), mname, true)
+
+
+def hand_loss(name, d, p):
+    """the loss between data d and prediction p (flat float arrays), written out independently of fit/losses.py"""
+    import numpy as np
+    if name == "mean_squared":
+        return float(np.mean((d - p) ** 2))
+    if name == "rmse":
+        return float(np.sqrt(np.mean((d - p) ** 2)))
+    if name == "mae":
+        return float(np.mean(np.abs(p - d)))
+    if name == "mean_absolute_percentage":
+        return float(100 * np.mean(np.abs((p - d) / d)))
+    if name == "mean_squared_logarithmic":
+        return float(np.mean((np.log(d + 1) - np.log(p + 1)) ** 2))
+    raise ValueError(name)
+
+
+def hand_residual(c, data, values, true):
+    """the property's own words: simulate the model at the candidate values, take the data's columns BY LABEL, scale
+    both sides with the data's per-label mean/std if asked, apply the loss.  Independent of fit/routines.py."""
+    import numpy as np
+    vals = dict(true)
+    if c.get("y0"):
+        vals.update({k: float(F(v)) for k, v in c["y0"].items()})
+    vals.update(values)
+    pred, _ = simulate_kind(c["kind"], build(c["model"], vals), c["model"], true,
+                            index=None if c["kind"] == "steady_state" else list(data.index))
+    labels = list(data.index) if c["kind"] == "steady_state" else list(data.columns)
+    if c["kind"] == "steady_state":
+        d = np.array([float(data[k]) for k in labels])
+        p = np.array([float(pred[k]) for k in labels])
+        if c["scaled"]:
+            mu, sd = d.mean(), d.std(ddof=1)
+            d, p = (d - mu) / sd, (p - mu) / sd
+    else:
+        cols_d, cols_p = [], []
+        for k in labels:
+            dk, pk = data[k].to_numpy(dtype=float), pred[k].to_numpy(dtype=float)
+            if c["scaled"]:
+                mu, sd = dk.mean(), dk.std(ddof=1)
+                dk, pk = (dk - mu) / sd, (pk - mu) / sd
+            cols_d.append(dk)
+            cols_p.append(pk)
+        d, p = np.concatenate(cols_d), np.concatenate(cols_p)
+    return hand_loss(c["loss"], d, p)
+
+
+def settings_for(kind, model, data, proto, loss, scaled, p0, y0=None):
     from mxlpy.fit import losses
     from mxlpy.fit.abstract import _Settings
     pn, vn = model.get_parameter_names(), model.get_variable_names()
-    return _Settings(model=model, data=data, y0=None, integrator=None, loss_fn=getattr(losses, loss),
+    return _Settings(model=model, data=data, y0=y0, integrator=None, loss_fn=getattr(losses, loss),
                      p_names=[i for i in p0 if i in pn], v_names=[i for i in p0 if i in vn], standard_scale=scaled,
                      protocol=proto)
 
 
 def real_fit_case(c):
-    """residual at the true parameters; optionally a full fit with a recording scipy minimiser"""
+    """residuals at the true and at other candidate values vs the by-hand residual; optionally a full fit with a
+    recording scipy minimiser"""
     import copy
     import logging
+    import warnings
 
     import scipy.optimize
     logging.getLogger("mxlpy").setLevel(logging.ERROR)
+    warnings.filterwarnings("ignore")
     from mxlpy import fit
     from mxlpy.fit import losses, routines
     from mxlpy.minimizers import _scipy as ms
 
+    c = {"model": "chain", **c}
+    mname = c["model"]
     true = {k: float(F(v)) for k, v in c["true"].items()}
     kind = c["kind"]
-    data, proto = make_data(kind, true)
+    data, proto = make_data(kind, true, mname)
     if c.get("cols"):
-        data = data[c["cols"]]
+        data = data[c["cols"]]  # selection AND order are the user's
     if kind != "steady_state" and c["loss"] == "mean_absolute_percentage":
         data = data.loc[:, [col for col in data.columns if (data[col].abs() > 1e-9).all()]]
+    y0 = {k: float(F(v)) for k, v in c["y0"].items()} if c.get("y0") else None
     resid = {"steady_state": routines.steady_state_residual, "time_course": routines.time_course_residual,
              "protocol": routines.protocol_time_course_residual}[kind]
     fitfn = {"steady_state": fit.steady_state, "time_course": fit.time_course, "protocol": fit.protocol_time_course}[kind]
     out = {}
+    # the by-hand residual is defined where the scaling is (every measured column varies) and the loss has its domain
+    hand_ok = not c.get("degenerate")
+    if c["scaled"]:
+        import numpy as np
+        spread = np.atleast_1d(np.asarray(data.std(), dtype=float))
+        hand_ok = hand_ok and bool(np.all(np.isfinite(spread)) and np.all(spread > 1e-12))
+        hand_ok = hand_ok and c["loss"] not in ("mean_squared_logarithmic", "mean_absolute_percentage")
     with _np_quiet():
-        st = settings_for(kind, chain_model(**true), data, proto, c["loss"], c["scaled"], true)
-        out["resid_true"] = float(resid(dict(true), st))
+        fitted = list(c["p0"]) if c.get("p0") else list(true)
+        truth = {k: true[k] for k in fitted} if c.get("p0") else dict(true)
+        st = settings_for(kind, build(mname, true), data, proto, c["loss"], c["scaled"], truth, y0)
+        out["resid_true"] = float(resid(dict(truth), st))
+        if c.get("other") and hand_ok:
+            other = {k: float(F(v)) for k, v in c["other"].items()}
+            st = settings_for(kind, build(mname, true), data, proto, c["loss"], c["scaled"], other, y0)
+            out["resid_other"] = float(resid(dict(other), st))
+            out["hand_other"] = hand_residual(c, data, other, true)
+            if not math.isfinite(out["hand_other"]):  # outside the loss's domain (log of a non-positive number ...)
+                del out["hand_other"], out["resid_other"]
         if not c.get("fit"):
             return out
         p0 = {k: float(F(v)) for k, v in c["p0"].items()}
@@ -310,72 +422,128 @@ def real_fit_case(c):
 
             res = scipy.optimize.minimize(g, x0=x0, **kw)
             rec.update(x0=[float(t) for t in x0], x=[float(t) for t in res.x], fun=float(res.fun), success=bool(res.success),
-                       g_at_x=vals.get(tuple(float(t) for t in res.x)), g_at_x0=vals.get(tuple(float(t) for t in x0)))
+                       g_at_x=vals.get(tuple(float(t) for t in res.x)), g_at_x0=vals.get(tuple(float(t) for t in x0)),
+                       bounds=[list(b) for b in kw.get("bounds") or []])
             return res
 
-        model = chain_model(**{**true, **p0})
+        model = build(mname, {**true, **p0})
         before = fingerprint(model)
         twin = copy.deepcopy(model)
+        args_before = (dict(p0), None if y0 is None else dict(y0), data.copy())
         old = ms.minimize
         ms.minimize = recording_minimize
         try:
-            kw = dict(p0=p0, data=data, minimizer=fit.LocalScipyMinimizer(tol=1e-8), loss_fn=getattr(losses, c["loss"]),
-                      standard_scale=c["scaled"], bounds={k: (1e-3, 1e3) for k in p0})
+            kw = dict(p0=p0, data=data, minimizer=fit.LocalScipyMinimizer(tol=1e-8, method=c.get("method", "L-BFGS-B")),
+                      loss_fn=getattr(losses, c["loss"]), standard_scale=c["scaled"])
+            if c.get("bounds"):
+                kw["bounds"] = {k: tuple(float(F(t)) for t in v) for k, v in c["bounds"].items()}
+            if y0 is not None:
+                kw["y0"] = y0
             if kind == "protocol":
                 kw["protocol"] = proto
-            res = fitfn(model, **kw)
+            try:
+                res = fitfn(model, **kw)
+            except Exception as e:  # noqa: BLE001  scipy's optimisers can raise from inside a line search
+                res = None
+                out["raised"] = type(e).__name__
         finally:
             ms.minimize = old
         out["after_equal"] = fingerprint(model) == before
+        out["args_untouched"] = (p0 == args_before[0] and y0 == args_before[1] and data.equals(args_before[2]))
         out["rec"] = rec
+        if res is None:
+            return out
         val = res.value
         if type(val).__name__ == "Fit":
-            out["fit"] = {"best": [[k, float(v)] for k, v in val.best_pars.items()], "loss": float(val.loss),
+            best = {k: float(v) for k, v in val.best_pars.items()}
+            out["fit"] = {"best": [[k, v] for k, v in best.items()], "loss": float(val.loss),
                           "returned_model_is_input": val.model is model}
-            st2 = settings_for(kind, copy.deepcopy(twin), data, proto, c["loss"], c["scaled"], p0)
-            out["resid_best"] = float(resid({k: float(v) for k, v in val.best_pars.items()}, st2))
-            st3 = settings_for(kind, copy.deepcopy(twin), data, proto, c["loss"], c["scaled"], p0)
+            st2 = settings_for(kind, copy.deepcopy(twin), data, proto, c["loss"], c["scaled"], p0, y0)
+            out["resid_best"] = float(resid(dict(best), st2))
+            st3 = settings_for(kind, copy.deepcopy(twin), data, proto, c["loss"], c["scaled"], p0, y0)
             out["resid_p0"] = float(resid(dict(p0), st3))
+            if hand_ok:
+                out["hand_best"] = hand_residual(c, data, best, true)
+                if not math.isfinite(out["hand_best"]):
+                    del out["hand_best"]
         else:
             out["fit"] = type(val).__name__
     return out
 
 
+BOUNDED_METHODS = {"L-BFGS-B", "Nelder-Mead", "Powell", "TNC", "SLSQP", "trust-constr", "COBYLA", "COBYQA"}
+
+
+def start_outside_bounds(c, rec) -> bool:
+    """the class of F-C20-4: a bounds-respecting method whose start value lies outside the (default) box"""
+    if c.get("method", "L-BFGS-B") not in BOUNDED_METHODS or not rec.get("bounds"):
+        return False
+    return any((lb is not None and x < lb) or (ub is not None and x > ub) for x, (lb, ub) in zip(rec["x0"], rec["bounds"]))
+
+
 def judge_fit(ctx, c, r):
-    ctx.count(c, f"{'fit' if c.get('fit') else 'resid'}:{c['kind']}:{c['loss']}:{'scaled' if c['scaled'] else 'plain'}")
+    c = {"model": "chain", **c}
+    if r.get("timeout"):
+        ctx.hist["fit_timeout_skipped"] = ctx.hist.get("fit_timeout_skipped", 0) + 1
+        return
+    tags = [c["model"], c["kind"], c["loss"], "scaled" if c["scaled"] else "plain"]
+    if c.get("cols"):
+        tags.append("cols-reordered" if c["cols"] != sorted(c["cols"], key=(MODELS[c["model"]]["varying"] + ["v1", "v_in"]).index) else "cols-subset")
+    if c.get("fit"):
+        tags += [c.get("method", "L-BFGS-B"), "bounds" if c.get("bounds") else "default-bounds"]
+        if any(k in MODELS[c["model"]]["vars"] for k in c["p0"]):
+            tags.append("fits-initial-value")
+        if c.get("y0"):
+            tags.append("y0")
+    ctx.count(c, ("fit:" if c.get("fit") else "resid:") + ":".join(tags))
     # residual at the true parameters (data generated by the model itself)
     small = 1e-3 if c["kind"] == "steady_state" else 1e-5  # steady state: stop criterion 1e-6 per 100 time units
     ctx.judge({"stream": "resid", **c}, {"residual_at_truth_small": abs(r["resid_true"]) <= small},
               {"residual_at_truth_small": True}, None, finding="F-C20-3" if c.get("degenerate") else None,
               what="residual(true parameters) ~ 0")
+    if "resid_other" in r:
+        ok = abs(r["resid_other"] - r["hand_other"]) <= 1e-8 * max(1.0, abs(r["hand_other"]))
+        ctx.judge({"stream": "resid", **c}, {"residual_is_loss_of_prediction": ok}, {"residual_is_loss_of_prediction": True},
+                  None, what=f"residual(candidate) = {r['resid_other']!r} vs loss(data, simulated prediction) by hand = {r['hand_other']!r}")
     if not c.get("fit"):
         return
     rec = r["rec"]
+    if "raised" in r:  # an exception out of scipy is not a fit; the caller's objects must still be as they were
+        ctx.hist["fit_raised_inside_scipy"] = ctx.hist.get("fit_raised_inside_scipy", 0) + 1
+        ctx.judge({"stream": "fit", **c}, {"input_untouched": r["after_equal"], "arguments_untouched": r["args_untouched"]},
+                  {"input_untouched": True, "arguments_untouched": True}, None, what=f"fit raised {r['raised']}")
+        return
     ctx.hist["fit_failed" if isinstance(r["fit"], str) else "fit_succeeded"] = ctx.hist.get(
         "fit_failed" if isinstance(r["fit"], str) else "fit_succeeded", 0) + 1
     if isinstance(r["fit"], str):  # minimiser reported failure: must be a failure value, and the input untouched
-        R = {"result": r["fit"], "input_untouched": r["after_equal"]}
-        S = {"result": "FitFailure", "input_untouched": True}
+        R = {"result": r["fit"], "input_untouched": r["after_equal"], "arguments_untouched": r["args_untouched"]}
+        S = {"result": "FitFailure", "input_untouched": True, "arguments_untouched": True}
         M = None
         if ctx.driver_ok and not rec.get("success", True):
             (mv,) = driver.call_batch([{"op": "c20", "fit": {"p0": [[k, q(F(v))] for k, v in c["p0"].items()], "res": None}}])
-            M = {"result": "FitFailure" if mv is None else "Fit", "input_untouched": True}
+            M = {"result": "FitFailure" if mv is None else "Fit", "input_untouched": True, "arguments_untouched": True}
         ctx.judge({"stream": "fit", **c}, R, S, M, what="failed minimisation is reported as failure")
         return
     f = r["fit"]
+    outside = start_outside_bounds(c, rec)
     tolr = 1e-9 * max(1.0, abs(f["loss"]))
     R = {"loss_is_residual_at_best": abs(f["loss"] - r["resid_best"]) <= tolr,
          "loss_le_residual_p0": f["loss"] <= r["resid_p0"] + tolr,
          "names": [k for k, _ in f["best"]], "input_untouched": r["after_equal"],
-         "works_on_a_copy": not f["returned_model_is_input"]}
+         "arguments_untouched": r["args_untouched"], "works_on_a_copy": not f["returned_model_is_input"]}
     S = {"loss_is_residual_at_best": True, "loss_le_residual_p0": True, "names": list(c["p0"]),
-         "input_untouched": True, "works_on_a_copy": True}
-    ctx.judge({"stream": "fit", **c}, R, S, None, what="fit.* result: honest loss, input model untouched")
+         "input_untouched": True, "arguments_untouched": True, "works_on_a_copy": True}
+    if "hand_best" in r:
+        R["loss_is_loss_of_prediction_at_best"] = abs(f["loss"] - r["hand_best"]) <= 1e-8 * max(1.0, abs(r["hand_best"]))
+        S["loss_is_loss_of_prediction_at_best"] = True
+    ctx.judge({"stream": "fit", **c}, R, S, None, finding="F-C20-4" if outside else None,
+              what=f"fit.* result: honest loss {f['loss']!r} (recomputed {r['resid_best']!r}, at p0 {r['resid_p0']!r}), input untouched")
     # minimiser contract (trusted assumption of C20_fit_honest) on the recorded scipy result
     contract = {"fun_is_objective_at_x": rec["g_at_x"] is not None and abs(rec["g_at_x"] - rec["fun"]) <= tolr,
-                "fun_le_start": rec["g_at_x0"] is not None and rec["fun"] <= rec["g_at_x0"] + tolr,
+                "fun_le_start": (rec["g_at_x0"] is not None or outside) and rec["fun"] <= r["resid_p0"] + tolr,
                 "dimension": len(rec["x"]) == len(rec["x0"])}
     ctx.judge({"stream": "contract", **c}, contract, {k: True for k in contract}, None,
+              finding="F-C20-4" if outside else None,
               what="scipy.optimize.minimize honours MinimiserContract on this run")
     # wrapper chain vs the Lean fitWrap/localScipyCall on the recorded result
     if ctx.driver_ok:
@@ -386,6 +554,26 @@ def judge_fit(ctx, c, r):
                   mv, what="Fit(best_pars, loss) = names of p0 zipped with res.x, res.fun")
 
 
+def gen_true(rng, mname):
+    if mname == "chain":
+        while True:
+            t = {"k1": q(rng.choice([1, 2, F(3, 2)])), "k2": q(rng.choice([1, 2, 4])), "k3": q(rng.choice([F(1, 2), 1, 2]))}
+            if not (F(t["k1"]) / F(t["k2"]) == 1 and F(t["k1"]) / F(t["k3"]) == F(1, 2)):  # would start AT the steady state
+                return t
+    return {"k_in": q(rng.choice([1, 2])), "a": q(rng.choice([-1, -2, F(-1, 2)]))}
+
+
+def gen_cols(rng, mname, kind, loss):
+    """the user's choice of measured columns, in the user's order (None = everything the model produces)"""
+    if kind == "steady_state" or rng.random() < 0.35:
+        return None
+    pool = list(MODELS[mname]["varying"])
+    if loss == "mean_squared_logarithmic" and mname == "lin":
+        pool = ["x"]  # v_lin is negative: outside the domain of log(1 + .)
+    cols = rng.sample(pool, rng.randint(min(2, len(pool)), len(pool)))
+    return cols
+
+
 def gen_fit_cases(ctx):
     rng = ctx.rng
     cases = []
@@ -393,10 +581,18 @@ def gen_fit_cases(ctx):
     for kind in kinds:
         for loss in GOOD:
             for scaled in (False, True):
-                true = {"k1": q(rng.choice([1, 2, F(3, 2)])), "k2": q(rng.choice([1, 2, 4])), "k3": q(rng.choice([F(1, 2), 1, 2]))}
-                cases.append({"kind": kind, "loss": loss, "scaled": scaled, "true": true})
-    cases = [c for c in cases if not (F(c["true"]["k1"]) / F(c["true"]["k2"]) == 1
-                                      and F(c["true"]["k1"]) / F(c["true"]["k3"]) == F(1, 2))]  # would start AT the steady state
+                mname = "chain" if (kind == "steady_state" or rng.random() < 0.7) else "lin"
+                true = gen_true(rng, mname)
+                c = {"model": mname, "kind": kind, "loss": loss, "scaled": scaled, "true": true}
+                cols = gen_cols(rng, mname, kind, loss)
+                if cols:
+                    c["cols"] = cols
+                if cols or kind == "steady_state" or not scaled:
+                    # a candidate away from the truth: the residual must be the loss of THAT prediction
+                    c["other"] = {k: q(F(v) * rng.choice([F(3, 4), F(5, 4), F(3, 2)])) for k, v in true.items()}
+                    if kind == "steady_state" and scaled:
+                        del c["other"]  # scaled steady-state data contains the constant flux columns
+                cases.append(c)
     # degenerate standard scaling (the default): a single measured value has std NaN, constant data has std 0
     cases += [{"kind": "steady_state", "loss": "rmse", "scaled": True, "true": {"k1": "1", "k2": "2", "k3": "1"},
                "cols": ["x"], "degenerate": True},
@@ -404,17 +600,60 @@ def gen_fit_cases(ctx):
                "cols": ["v1"], "degenerate": True},
               {"kind": "steady_state", "loss": "rmse", "scaled": False, "true": {"k1": "1", "k2": "2", "k3": "1"},
                "cols": ["x"]}]
-    nfit = ctx.n(9, 60)
+    pert = [F(3, 4), F(5, 4), F(3, 2)]
+    nfit = ctx.n(12, 72)
     for i in range(nfit):
-        kind = kinds[i % 3]
+        style = ["params", "initial", "negative", "params", "y0", "negative"][i % 6]
+        kind = kinds[i % 3] if style == "params" else rng.choice(["time_course", "protocol"])
         loss = rng.choice(["rmse", "rmse", "mean_squared", "mae"])
-        true = {"k1": q(rng.choice([1, 2])), "k2": q(rng.choice([2, 4])), "k3": q(rng.choice([1, 2]))}
-        names = rng.sample(["k1", "k2", "k3"], rng.choice([1, 2, 3]) if kind != "protocol" else rng.choice([1, 2]))
-        if kind == "protocol":
-            names = [n for n in names if n != "k1"] or ["k2"]  # k1 is driven by the protocol
-        p0 = {n: q(F(true[n]) * rng.choice([F(3, 4), F(5, 4), F(3, 2)])) for n in sorted(names)}
-        cases.append({"kind": kind, "loss": loss, "scaled": rng.random() < 0.5, "true": true, "p0": p0, "fit": True})
+        c = {"kind": kind, "loss": loss, "scaled": rng.random() < 0.5, "fit": True}
+        if style == "negative":
+            # a coefficient that is negative; methods that ignore bounds find it, bounded ones need a box that holds it
+            c.update(model="lin", kind="time_course", loss="mean_squared", method=rng.choice(["BFGS", "CG", "L-BFGS-B"]))
+            true = gen_true(rng, "lin")
+            names = rng.choice([["a"], ["a", "k_in"]])
+            p0 = {n: q(F(true[n]) * rng.choice(pert)) for n in names}
+            if c["method"] == "L-BFGS-B" or rng.random() < 0.3:
+                c["bounds"] = {n: [q(F(-10)), q(F(10))] for n in names}
+        else:
+            c["model"] = "chain"
+            true = gen_true(rng, "chain")
+            names = rng.sample(["k1", "k2", "k3"], rng.choice([1, 2]))
+            if kind == "protocol":
+                names = [n for n in names if n != "k1"] or ["k2"]  # k1 is driven by the protocol
+            p0 = {n: q(F(true[n]) * rng.choice(pert)) for n in sorted(names)}
+            c["method"] = rng.choice(["L-BFGS-B", "L-BFGS-B", "Nelder-Mead", "Powell"])
+            if style == "initial":  # fit a start value as well: p0 names a VARIABLE
+                true = {**true, "x": q(rng.choice([2, 3]))}
+                p0["x"] = q(F(true["x"]) * rng.choice(pert))
+            if style == "y0":  # initial conditions supplied by the caller
+                c["y0"] = {"x": q(rng.choice([2, 3])), "y": q(rng.choice([1, F(1, 4)]))}
+                true = {**true, **c["y0"]}
+            if rng.random() < 0.5 or c["method"] != "L-BFGS-B":
+                c["bounds"] = {n: [q(F(1, 1000)), q(F(100))] for n in p0}
+        cols = gen_cols(rng, c["model"], c["kind"], c["loss"])
+        if cols:
+            c["cols"] = cols
+        c.update(true=true, p0=p0)
+        cases.append(c)
+    # F-C20-4: a start value outside the silently applied default box (1e-6, 1e6)
+    cases.append({"model": "lin", "kind": "time_course", "loss": "mean_squared", "scaled": False, "fit": True,
+                  "method": "L-BFGS-B", "true": {"k_in": "1", "a": "-1"}, "p0": {"a": "-1/2"}})
     return cases
+
+
+def run_fit_cases(cases, timeout=120):
+    """every case in its own worker process with a wall-clock limit (an optimiser may walk into a stiff corner)"""
+    import pebble
+    out = []
+    with pebble.ProcessPool(max_workers=min(16, os.cpu_count() or 4)) as pool:
+        futs = [pool.schedule(real_fit_case, args=(c,), timeout=timeout) for c in cases]
+        for f in futs:
+            try:
+                out.append(f.result())
+            except TimeoutError:
+                out.append({"timeout": True})
+    return out
 
 
 # ----------------------------------------------------------------------------- entry points
@@ -452,12 +691,12 @@ def run(ctx):
                   for c in (gen_loss_case(rng, "mean_absolute_percentage") for _ in range(ctx.n(12, 200)))]
     fit_cases = gen_fit_cases(ctx)
     import mxlpy  # noqa: F401
-    with cf.ProcessPoolExecutor(max_workers=min(16, os.cpu_count() or 4)) as ex:
-        fut_fit = [ex.submit(real_fit_case, c) for c in fit_cases]
+    with cf.ProcessPoolExecutor(max_workers=4) as ex:
         chunks = [loss_cases[i:i + 100] for i in range(0, len(loss_cases), 100)]
-        Rl = [r for ch in ex.map(real_losses, chunks) for r in ch]
+        fut_l = ex.map(real_losses, chunks)
+        Rf = run_fit_cases(fit_cases)
+        Rl = [r for ch in fut_l for r in ch]
         Rs = real_settings(set_cases)
-        Rf = [f.result() for f in fut_fit]
     Ml = model_losses(ctx, loss_cases)
     for c, r, m in zip(loss_cases, Rl, Ml):
         judge_loss(ctx, c, r, m)
@@ -486,6 +725,6 @@ def replay(ctx, rp):
         print("R =", r)
         judge_settings(ctx, c, r)
     else:
-        r = real_fit_case(c)
+        (r,) = run_fit_cases([c])
         print("R =", r)
         judge_fit(ctx, c, r)
